@@ -4,6 +4,7 @@ CONSTANTS
   Conns = {1, 2, 3, 4, 5, 6, 7, 8}
   CacheModes = {"nil", "zero", "on"}
   MaxSalt = 16
+  Faults = FALSE
   MaxInFlight = 1
 INVARIANTS DumpInv
 CHECK_DEADLOCK FALSE
